@@ -2,9 +2,12 @@
     Theorem-only file.  What is proved is the totality of the lexer model (YLex/Model.v: the whole of
     parser/lexer.go as repaired, byte level) and of the string post-processing of the grammar.  The
     goyacc driver, the builder, resolver and compiler are NOT modelled: for them the property is
-    established by the correspondence streams only (bin/props.d/C14.json). *)
+    established by the correspondence streams only (bin/props.d/C14.json) - except the import loop of
+    the resolver, whose model (Load/Model.v) is proved to end on every import graph. *)
 From Coq Require Import List Bool Arith Strings.Byte.
 From YV Require Import YLex.Keywords YLex.Model YLex.Spec YLex.Proofs YLex.Total.
+From YV Require Import Load.Model.
+From YV Require Load.Proofs.
 Import ListNotations.
 
 (** For EVERY byte string the lexer ends with the complete token stream or with a lexer error: it
@@ -54,3 +57,24 @@ Proof.
   split; [vm_compute; reflexivity|]. split; [vm_compute; reflexivity|].
   split; [eexists; vm_compute; reflexivity|]. split; eexists; vm_compute; reflexivity.
 Qed.
+
+(** The import loop of the resolver (model Load/Model.v [imp_run] of meta/resolver.go resolver.module
+    as repaired) ends for EVERY import graph - rings, self imports, texts stored under another name
+    than they declare, missing texts, any revision-date on any edge: the fuel the model is given
+    always suffices. *)
+Theorem C14_import_loop_total : forall g, imp_model g <> IFuel.
+Proof. exact Load.Proofs.imp_model_total. Qed.
+Print Assumptions C14_import_loop_total.
+
+(** ... and it never asks the opener twice for the same name *)
+Theorem C14_import_loop_requests_once : forall g, NoDup (Load.Proofs.requested (imp_model g)).
+Proof. exact Load.Proofs.imp_model_requests_once. Qed.
+Print Assumptions C14_import_loop_requests_once.
+
+(** the loop before the repair (a loaded text was registered under the name it declares only) is
+    refuted: with a text stored as m1 that declares m3 and imports m1, no fuel suffices *)
+Example C14_import_loop_old_refuted :
+  (forall fuel, imp_run_old fuel (ig_files Load.Proofs.misnamed_graph) [0] [] [1] = IFuel)
+  /\ imp_model Load.Proofs.misnamed_graph = IDone [1].
+Proof. exact Load.Proofs.imp_old_refuted. Qed.
+Print Assumptions C14_import_loop_old_refuted.
